@@ -783,12 +783,187 @@ fn run_iter_prop(ctx: &mut Ctx, prop: &'static str) {
     }
 }
 
+
+// ------------------------------------------------------------------------------------------------
+// Giant arrays of zero-sized elements: the only way to reach dimensions near usize::MAX, where
+// unchecked sums / products inside the iterators can wrap. Everything here is O(1): lengths and
+// a few items are compared with arithmetic expectations (an ideal Vec cannot be built).
+
+fn giant_shapes() -> Vec<(usize, usize)> {
+    vec![
+        (usize::MAX, 1),
+        (1, usize::MAX),
+        ((1usize << 32) + 1, (1usize << 32) - 1),
+        ((1usize << 32) - 1, (1usize << 32) + 1),
+        (3, usize::MAX / 3),
+        (usize::MAX / 2, 2),
+        (usize::MAX / 2 + 1, 1),
+    ]
+}
+
+fn giant_check(ctx: &mut Ctx, name: &str, what: &str, got: Result<(usize, (usize, Option<usize>)), String>, want: usize) -> bool {
+    ctx.count("iter_calls", 1);
+    ctx.count("giant_zst_checks", 1);
+    match got {
+        Err(m) => {
+            ctx.violation(name, "iter:panic", format!("{}: {}", what, m));
+            false
+        }
+        Ok((l, sh)) => {
+            if l != want || sh != (want, Some(want)) {
+                ctx.violation(name, "iter:len", format!("{}: len {} size_hint {:?} expected {}", what, l, sh, want));
+                false
+            } else {
+                true
+            }
+        }
+    }
+}
+
+fn giant_zst(ctx: &mut Ctx, prop: &str) {
+    for (c, r) in giant_shapes() {
+        if !ctx.case(|| format!("{} giant zero-sized array {}x{}", prop, c, r)) {
+            continue;
+        }
+        let total = c.checked_mul(r).expect("harness: giant shapes fit usize");
+        let mut a: TooDee<()> = TooDee::from_vec(c, r, vec![(); total]);
+        // receivers: the array itself, a window that cuts one column and one row (if possible), nested
+        let wins: Vec<Win> = vec![((0, 0), (c, r)), ((c.min(2) - 1, r.min(2) - 1), (c, r)), ((0, 0), (c - (c > 1) as usize, r - (r > 1) as usize))];
+        for (wi, (s, e)) in wins.into_iter().enumerate() {
+            let (wc, wr) = (e.0 - s.0, e.1 - s.1);
+            let what = format!("{}x{} window {:?}", c, r, (s, e));
+            let mut ok = true;
+            match prop {
+                "C08" => {
+                    // rows(): len, after a few steps, items have the window's width
+                    ok &= giant_check(ctx, "giant/Rows", &what, catches(|| { let it = a.view(s, e); let it = it.rows(); (it.len(), it.size_hint()) }), wr);
+                    ok &= giant_check(ctx, "giant/RowsMut", &what, catches(|| { let mut v = a.view_mut(s, e); let it = v.rows_mut(); (it.len(), it.size_hint()) }), wr);
+                    if wi == 0 {
+                        ok &= giant_check(ctx, "giant/Rows(owned)", &what, catches(|| { let it = a.rows(); (it.len(), it.size_hint()) }), wr);
+                        ok &= giant_check(ctx, "giant/RowsMut(owned)", &what, catches(|| { let it = a.rows_mut(); (it.len(), it.size_hint()) }), wr);
+                    }
+                    let stepped = catches(|| {
+                        let v = a.view(s, e);
+                        let mut it = v.rows();
+                        let first = it.next().map(|x| x.len());
+                        let last = it.next_back().map(|x| x.len());
+                        let cnt = it.len();
+                        let far = it.nth(usize::MAX).is_none();
+                        (first, last, cnt, far, it.len(), v.rows().count(), v.rows().last().map(|x| x.len()), v.rows().nth(wr - 1).map(|x| x.len()), v.rows().nth_back(wr - 1).map(|x| x.len()), v.rows().nth(wr).is_none())
+                    });
+                    ctx.count("iter_calls", 8);
+                    let want_last = if wr >= 2 { Some(wc) } else { None };
+                    match stepped {
+                        Err(m) => {
+                            ctx.violation("giant/Rows", "iter:panic", format!("{}: {}", what, m));
+                            ok = false;
+                        }
+                        Ok(t) => {
+                            if t != (Some(wc), want_last, wr.saturating_sub(2), true, 0, wr, Some(wc), Some(wc), Some(wc), true) {
+                                ctx.violation("giant/Rows", "iter:item", format!("{}: observed {:?}", what, t));
+                                ok = false;
+                            }
+                        }
+                    }
+                }
+                "C09" => {
+                    for col in [0, wc - 1] {
+                        ok &= giant_check(ctx, "giant/Col", &what, catches(|| { let v = a.view(s, e); let it = v.col(col); (it.len(), it.size_hint()) }), wr);
+                        ok &= giant_check(ctx, "giant/ColMut", &what, catches(|| { let mut v = a.view_mut(s, e); let it = v.col_mut(col); (it.len(), it.size_hint()) }), wr);
+                        let stepped = catches(|| {
+                            let v = a.view(s, e);
+                            let mut it = v.col(col);
+                            let f = it.next().is_some();
+                            let b = it.next_back().is_some();
+                            let cnt = it.len();
+                            let in_range = catches(|| { let _ = &v.col(col)[wr - 1]; }).is_ok();
+                            let out_range = catches(|| { let _ = &v.col(col)[wr]; }).is_err();
+                            (f, b, cnt, v.col(col).nth(wr - 1).is_some(), v.col(col).nth(wr).is_none(), v.col(col).nth_back(usize::MAX).is_none(), in_range, out_range, v.col(col).count())
+                        });
+                        ctx.count("iter_calls", 8);
+                        match stepped {
+                            Err(m) => {
+                                ctx.violation("giant/Col", "iter:panic", format!("{} col {}: {}", what, col, m));
+                                ok = false;
+                            }
+                            Ok(t) => {
+                                if t != (true, wr >= 2, wr.saturating_sub(2), true, true, true, true, true, wr) {
+                                    ctx.violation("giant/Col", "iter:item", format!("{} col {}: observed {:?}", what, col, t));
+                                    ok = false;
+                                }
+                            }
+                        }
+                    }
+                    if wi == 0 {
+                        ok &= giant_check(ctx, "giant/Col(owned)", &what, catches(|| { let it = a.col(c - 1); (it.len(), it.size_hint()) }), r);
+                        ok &= giant_check(ctx, "giant/ColMut(owned)", &what, catches(|| { let it = a.col_mut(0); (it.len(), it.size_hint()) }), r);
+                    }
+                }
+                _ => {
+                    let wtotal = wc * wr;
+                    ok &= giant_check(ctx, "giant/Cells", &what, catches(|| { let v = a.view(s, e); let it = v.cells(); (it.len(), it.size_hint()) }), wtotal);
+                    ok &= giant_check(ctx, "giant/CellsMut", &what, catches(|| { let mut v = a.view_mut(s, e); let it = v.cells_mut(); (it.len(), it.size_hint()) }), wtotal);
+                    if wi == 0 {
+                        ok &= giant_check(ctx, "giant/Cells(owned)", &what, catches(|| { let it = a.cells(); (it.len(), it.size_hint()) }), wtotal);
+                        ok &= giant_check(ctx, "giant/IntoIter(&mut owned)", &what, catches(|| { let it = (&mut a).into_iter(); (it.len(), it.size_hint()) }), wtotal);
+                    }
+                    let stepped = catches(|| {
+                        let v = a.view(s, e);
+                        let mut it = v.cells();
+                        let f = it.next().is_some();
+                        let b = it.next_back().is_some();
+                        let l1 = it.len();
+                        let j = it.nth(wc).is_some(); // row-crossing jump
+                        let l2 = it.len();
+                        let jb = it.nth_back(wc).is_some();
+                        let l3 = it.len();
+                        let far = it.nth(usize::MAX).is_none();
+                        (f, b, l1, j, l2, jb, l3, far, it.len())
+                    });
+                    ctx.count("iter_calls", 8);
+                    match stepped {
+                        Err(m) => {
+                            ctx.violation("giant/Cells", "iter:panic", format!("{}: {}", what, m));
+                            ok = false;
+                        }
+                        Ok(t) => {
+                            // expectations by plain arithmetic on the ideal sequence of wtotal items
+                            let mut rem = wtotal;
+                            let f = rem > 0;
+                            rem -= f as usize;
+                            let b = rem > 0;
+                            rem -= b as usize;
+                            let l1 = rem;
+                            let j = rem > wc;
+                            rem = if j { rem - wc - 1 } else { 0 };
+                            let l2 = rem;
+                            let jb = rem > wc;
+                            rem = if jb { rem - wc - 1 } else { 0 };
+                            let l3 = rem;
+                            if t != (f, b, l1, j, l2, jb, l3, true, 0) {
+                                ctx.violation("giant/Cells", "iter:item", format!("{}: observed {:?} expected {:?}", what, t, (f, b, l1, j, l2, jb, l3, true, 0)));
+                                ok = false;
+                            }
+                        }
+                    }
+                }
+            }
+            if ok {
+                ctx.nontrivial((prop.to_string(), "giant", c, r, s, e));
+            }
+        }
+    }
+}
+
 pub fn run_c08(ctx: &mut Ctx) {
-    run_iter_prop(ctx, "C08")
+    run_iter_prop(ctx, "C08");
+    giant_zst(ctx, "C08")
 }
 pub fn run_c09(ctx: &mut Ctx) {
-    run_iter_prop(ctx, "C09")
+    run_iter_prop(ctx, "C09");
+    giant_zst(ctx, "C09")
 }
 pub fn run_c10(ctx: &mut Ctx) {
-    run_iter_prop(ctx, "C10")
+    run_iter_prop(ctx, "C10");
+    giant_zst(ctx, "C10")
 }
